@@ -137,6 +137,8 @@ def mechanism_exercised(prop, c):
         return has(" ev inv ")
     if prop == "C09":
         return has(" ev notif ")
+    if prop == "C14":
+        return has(" ev inv x")
     if prop == "C13":
         return has(" api panic user")
     if prop == "C19":
@@ -225,6 +227,16 @@ def run(chk, spec):
     def known_match(c):
         for kf in known.get("findings", []):
             if kf.get("property") == prop and re.search(kf["signature"], c.verdict or ""):
+                if kf.get("id") == "F12":
+                    # transient necessity is inherent to the algorithm: it is the known finding only if the
+                    # MODEL (the algorithm as specified) runs the very same node function in the very same
+                    # action; an implementation that runs something the model does not is a new violation
+                    m = re.search(r"action (\d+): (\S+)@n(\d+) ran", c.verdict or "")
+                    if not m:
+                        continue
+                    needle = f"{m.group(1)} ev inv {m.group(2)}@n{m.group(3)} "
+                    if not any(l.startswith(needle) for l in (c.model or [])):
+                        continue
                 return kf
         return None
     new_pred = []
